@@ -539,8 +539,12 @@ def replay_finding(entry):
 
 
 def replay(obj):
-    r = run(dict(tier="quick", seed=obj.get("seed", 0), model_ok=False, findings=[]))
-    return r["oracle_failures"]
+    """re-run the generation the witness came from (same seed) with the listed findings recognised as such; what counts is a failure
+    of the witness's own clause"""
+    w = obj.get("witness", obj) if isinstance(obj, dict) else {}
+    r = run(dict(tier=obj.get("tier", "quick"), seed=obj.get("seed", 0), model_ok=False, findings=core.load_findings("C16")))
+    clause = w.get("clause")
+    return [f for f in r["oracle_failures"] if clause is None or f.get("clause") == clause]
 
 
 LEVEL_TEXT = ("Lean 4 theorems over R about an executable model of BaselineMetrics/ReportingMetrics (finite-pair filter, n, sse, mse, rmse, "
